@@ -335,3 +335,14 @@ Lemma selection_valid_stochastic_l items n config_n keys :
     (forall r kr r' kr', In (r, kr) (combine valid keys) -> In r out ->
        In (r', kr') (combine valid keys) -> ~ In r' out -> (kr' <= kr)%Q).
 Proof. exact (selection_valid_rank_l stochastic_mask stochastic_len items n config_n keys stochastic_len_spec). Qed.
+
+(* the regenerated weight rule: the scale factor multiplies the eligible scores before the transform is
+   chosen -- which is how the model forms its weights (`weights t (scaled_scores scale valid)`) *)
+Lemma weight_rule_l :
+  stochastic_scale = ScaleBeforeTransform /\
+  stochastic_transforms = [TrLinearMinMax; TrSoftmax; TrRawClamp] /\
+  stochastic_keys = KLogUOverW /\ softmax_keys = KLogUOverW /\
+  (forall scale valid, weights TLinear (scaled_scores scale valid) = linear_weights (scaled_scores scale valid)) /\
+  (forall scale valid, weights TRaw (scaled_scores scale valid) = scaled_scores scale valid) /\
+  (forall scale i q x, scaled_scores scale [(i, SNum q, x)] = [(q * scale)%Q]).
+Proof. repeat split; reflexivity. Qed.
